@@ -8,14 +8,13 @@ from typing import Callable, Iterable
 from .cfg import CFG, Node
 from .core import FuncInfo, enclosing_stmt, parent, walk_no_nested
 
-_CACHE: dict[int, CFG] = {}
-
-
 def cfg_of(f: FuncInfo) -> CFG:
-    k = id(f.node)
-    if k not in _CACHE:
-        _CACHE[k] = CFG(f.node)
-    return _CACHE[k]
+    # cached on the AST node itself (an id()-keyed dict would hand out stale graphs once a Repo is collected and ids are reused)
+    c = getattr(f.node, "_odfsa_cfg", None)
+    if c is None:
+        c = CFG(f.node)
+        f.node._odfsa_cfg = c  # type: ignore[attr-defined]
+    return c
 
 
 def node_of(cfg: CFG, n: ast.AST) -> Node | None:
